@@ -115,75 +115,3 @@ Definition parse_bad (cs : list (string * option (list (list (string * string)))
 Definition textsafe_bad (cs : list (string * bool)) : list (N * N) :=
   flat_map (fun ic => let '(i, (d, impl)) := ic in
                       if Bool.eqb (text_safe (unhex d)) impl then [] else [(i, 1)]) (index_from 0 cs).
-
-(* ==================================================================== WP-I: the ten renderings
-   Model/JournalRender.v with the configuration regenerated from the source (Gen/JournalTables.v). *)
-From S4.Model Require Import JournalRender.
-From S4.Gen Require Import JournalTables.
-Open Scope N_scope.
-
-Definition output_of_N (n : N) : output :=
-  match n with
-  | 0 => OShort | 1 => OShortPrecise | 2 => OShortIso | 3 => OShortIsoPrecise | 4 => OShortFull
-  | 5 => OShortMonotonic | 6 => OShortUnix | 7 => OVerbose | 8 => OExport | _ => OCat
-  end.
-
-(* entries of one chunk of a journal: (receive time, cursor, monotonic, data objects as key/value) *)
-Definition mk_entries (es : list (Z * string * option N * list (string * string))) : list entry :=
-  map (fun x => let '(t, cur, mono, fs) := x in mkEntry t (unhex cur) mono (unhex_fields fs)) es.
-
-Definition dummy_entry : entry := mkEntry 0%Z [] None [].
-
-Fixpoint first_diff (i : N) (a b : bytes) : N :=
-  match a, b with
-  | [], [] => 0
-  | x :: a', y :: b' => if x =? y then first_diff (i + 1) a' b' else i + 1
-  | _, _ => i + 1
-  end.
-
-(* case = (rendering, zone offset in seconds, sd_id128_get_boot succeeded on the host,
-           positions (in the chunk) of the entries the run selected, as runs, stdout of the binary)
-   result: (case index, 1 + offset of the first byte at which model and binary differ) *)
-(* long byte strings are written as lists of short hex strings *)
-Definition unhexs (l : list string) : bytes := concat (map unhex l).
-
-Definition render_bad (es : list (Z * string * option N * list (string * string)))
-                      (cs : list (N * Z * bool * list (N * N) * list string)) : list (N * N) :=
-  let ents := mk_entries es in
-  flat_map (fun ic => let '(i, (o, off, bok, runs, impl)) := ic in
-                      let sel := map (fun k => nth (N.to_nat k) ents dummy_entry) (expand runs) in
-                      let m := emit (map (next_entry src_cfg (mkEnv off bok) (output_of_N o)) sel) in
-                      match first_diff 0 m (unhexs impl) with
-                      | 0 => []
-                      | d => [(i, d)]
-                      end) (index_from 0 cs).
-
-(* the whole run inside the model: journal_stdout10 with the reference oracle on the chunk taken as a
-   journal, for window A B.  case = (rendering, offset, boot ok, A, B, stdout) *)
-Definition render_run_bad (es : list (Z * string * option N * list (string * string)))
-                          (cs : list (N * Z * bool * option Z * option Z * list string)) : list (N * N) :=
-  let ents := mk_entries es in
-  flat_map (fun ic => let '(i, (o, off, bok, A, B, impl)) := ic in
-                      let m := journal_stdout10 ref_seek_head ref_seek_realtime stop_after src_cfg (mkEnv off bok)
-                                                (output_of_N o) A B ents in
-                      match first_diff 0 m (unhexs impl) with
-                      | 0 => []
-                      | d => [(i, d)]
-                      end) (index_from 0 cs).
-
-(* the monotonic field alone (f64 arithmetic): case = (microseconds, text printed between the brackets) *)
-Definition mono_bad (cs : list (N * string)) : list (N * N) :=
-  flat_map (fun ic => let '(i, (mu, impl)) := ic in
-                      if beqb (fmt_mono src_cfg mu) (unhex impl) then [] else [(i, 1)]) (index_from 0 cs).
-
-(* datetime text alone: case = (format index 0..6 as output_of_N | 7 = verbose, microseconds, offset seconds, text) *)
-Definition dt_text_bad (cs : list (N * Z * Z * string)) : list (N * N) :=
-  flat_map (fun ic => let '(i, (o, us, off, impl)) := ic in
-                      let fmt := match cfg_dispatch src_cfg (output_of_N o) with
-                                 | DShort f _ => f
-                                 | _ => cfg_fmt_verbose src_cfg
-                                 end in
-                      match jstrftime fmt (us * 1000)%Z off with
-                      | Some s => if beqb s (unhex impl) then [] else [(i, 1)]
-                      | None => [(i, 2)]
-                      end) (index_from 0 cs).
